@@ -67,9 +67,9 @@ Print Assumptions C01_ids_unique.
 
 (* ------------------------------------------------------------------------------------------ *)
 (* End-to-end response integrity over the composition of the client and server models
-   (coq/ChainResp*.v; monitor ChainRespSpec.c01c_ok, evaluated on every real chain trace by part
-   compose); names are qualified. *)
-From TarpcV Require Client Server Chain ChainSpec ChainRespSpec ChainResp ChainResp2 ChainResp3 ChainResp4 ChainResp5.
+   (coq/ChainResp*.v, ChainIds.v, ClientWaiters.v; monitor ChainRespSpec.c01c_ok, also evaluated
+   on every real chain trace by part compose); names are qualified. *)
+From TarpcV Require Client Server Chain ChainSpec ChainRespSpec ChainResp ChainResp2 ChainResp3 ChainResp4 ChainResp5 ChainResp6.
 (* value provenance across hops, on the COMPOSITION (coq/Chain.v), for EVERY depth, EVERY op
    list and EVERY state reached (tainted or not, request ids wrapped or not - no hypothesis):
    whenever a head call resolves with Ok v, some handler of node 0 finished with v before; and
@@ -77,10 +77,9 @@ From TarpcV Require Client Server Chain ChainSpec ChainRespSpec ChainResp ChainR
    with v before.  By induction over the hops, v is a value a LEAF handler was scripted to
    return: no client, link or server of the chain ever fabricates, alters or duplicates-into-
    existence a reply value.  (Monitor ChainRespSpec.c01c_val: flag rm_val of the fold rmon.)
-   Of the request-identified refinements of the same monitor, rm_yield / rm_uniq / rm_start are
-   proved (C08.v section below), rm_once is proved in all states (C01_chain_once), and rm_body (the producing handler served a request with the
-   caller's body; untainted runs) is pinned in ChainRespSpec.stmt_resp_body and CHECKED on every
-   real trace (Checks/Chaincheck bit 1), not proved. *)
+   The request-identified refinements of the same monitor are all proved as well: rm_body
+   (C01_chain_body below), rm_once (C01_chain_once), rm_yield / rm_uniq / rm_start (C08.v section),
+   and with them the whole monitor (C01_chain_resp). *)
 Theorem C01_chain_value_provenance : forall (d : nat) (ops : list Chain.cop),
   ChainRespSpec.c01c_val d ops (fst (Chain.run d ops)) = true.
 Proof. exact ChainResp.chain_resp_val. Qed.
@@ -129,17 +128,26 @@ Theorem C01_chain_once : forall (d : nat) (ops : list Chain.cop),
 Proof. exact ChainResp4.chain_resp_once_all. Qed.
 Print Assumptions C01_chain_once.
 
-(* the monitor as a whole: five of the six flags are proved (value provenance, once, and the three
-   C08 flags below); with the sixth (rm_body, ChainRespSpec.stmt_resp_body: the producing handler
-   served the caller's own request; open, checked on every real trace) the whole c01c_ok
-   follows *)
-Theorem C01_chain_resp_but_body : forall (d : nat) (ops : list Chain.cop),
-  ChainSpec.chain_no_wrap ops ->
-  ChainRespSpec.c01c_val d ops (fst (Chain.run d ops)) && ChainRespSpec.c01c_once d ops (fst (Chain.run d ops))
-  && ChainRespSpec.c01c_yield d ops (fst (Chain.run d ops)) && ChainRespSpec.c01c_uniq d ops (fst (Chain.run d ops))
-  && ChainRespSpec.c01c_start d ops (fst (Chain.run d ops)) = true.
-Proof. exact ChainResp5.chain_resp_but_body. Qed.
-Theorem C01_chain_resp_of_body : ChainRespSpec.stmt_resp_body -> ChainRespSpec.stmt_resp.
-Proof. exact ChainResp5.chain_resp_of_body. Qed.
-Print Assumptions C01_chain_resp_but_body.
-Print Assumptions C01_chain_resp_of_body.
+(* (i) with the request identified, fewer than 2^64 - 1 ops, owed while the run is untainted
+   (Chain.mo_tainted): when head call j resolves with Ok v, a handler of node 0 that served a
+   request with head call j's body finished with v before; when a handler of a non-leaf node i
+   (serving a request with body b) finishes with Ok v, a handler of node i+1 that served a request
+   with body b finished with v before.  The proof goes through the request identity, not the
+   body: the value sits in the oneshot slot of the call's request id; the value under id `id` on
+   node i was produced by the handler incarnation whose yield has that id (value provenance with
+   ids); that yield was written into link i with the same id and body (C08_chain_yield_written);
+   and while ids do not wrap, the call holding id `id` on client i has the body under which `id`
+   was queued and written (ChainIds.idc).  Bodies are carried verbatim from the head call / the
+   yielded request to the call that is made for them.  So a reply is never delivered to a call it
+   was not produced for - also when bodies coincide, the statement only names bodies. *)
+Theorem C01_chain_body : forall (d : nat) (ops : list Chain.cop),
+  ChainSpec.chain_no_wrap ops -> ChainRespSpec.c01c_body d ops (fst (Chain.run d ops)) = true.
+Proof. exact ChainResp6.chain_resp_body. Qed.
+
+(* the monitor as a whole (value provenance, body, once, and the three C08 flags): every depth, every
+   op list of fewer than 2^64 - 1 ops *)
+Theorem C01_chain_resp : forall (d : nat) (ops : list Chain.cop),
+  ChainSpec.chain_no_wrap ops -> ChainRespSpec.c01c_ok d ops (fst (Chain.run d ops)) = true.
+Proof. exact ChainResp6.chain_resp. Qed.
+Print Assumptions C01_chain_body.
+Print Assumptions C01_chain_resp.
